@@ -21,6 +21,9 @@ def writes_bits(n):
             return True
         if n.get("cname") in ("fill_n", "fill", "memset", "memcpy") and n.get("args") and is_this_field(n["args"][0], ("bit_array_",)):
             return True
+        # output-iterator position of the copying algorithms
+        if n.get("cname") in ("copy", "copy_n", "copy_backward", "move", "transform") and len(n.get("args", [])) >= 3 and is_this_field(n["args"][2], ("bit_array_",)):
+            return True
     if n.get("k") == "Assign":
         l = strip(n["l"])
         if l.get("k") == "Index" and is_this_field(l["b"], ("bit_array_",)):
